@@ -90,7 +90,15 @@ def children_loop_iterations(f, E):
     """iterations of loops over m_children entered on this path (range-for, iterator loops, while loops: by the container the loop test is about)"""
     # loops of the function itself and of every function of the same translation unit it may inline (a traversal helper such as
     # visitChildren(level, visitor) holds the loop over m_children, the visitor closure holds the recursive call)
-    conds = {n.n('c').id for g in f.tu.functions for n in g.nodes() if n.k in ('rangefor', 'for', 'while', 'do') and n.n('c') is not None}
+    def carries(loop, g):
+        # the loop body descends: it calls f itself, or (in a helper) it calls a callable it was handed
+        for x in (loop.n('body').walk() if loop.n('body') is not None else []):
+            if x.k != 'call': continue
+            if strip_targs(x.calleeq or '') == f.gname: return True
+            if g is not f and (x.n('calleeexpr') is not None or (x.ck == 'op' and x.op == '()')): return True
+        return False
+    conds = {n.n('c').id for n in f.nodes() if n.k in ('rangefor', 'for', 'while', 'do') and n.n('c') is not None}
+    conds |= {n.n('c').id for g in f.tu.functions if g is not f for n in g.nodes() if n.k in ('rangefor', 'for', 'while', 'do') and n.n('c') is not None and carries(n, g)}
     vis = [(i, c) for i, c in loop_visits(E, conds) if c == 'm_children']
     return len(vis), conds
 
@@ -585,7 +593,8 @@ class RouterAnalysis:
                 self.add('SH.4', vals == want, f'exists row {row} = {sorted(map(str, vals))}', exf.shortloc(), '' if vals == want else f'expected {sorted(want)}', key='SH.4|exists')
         dp = F.fn(f'{NODE}::depth')
         if dp is not None and not self_recursive(dp) and not any(n.k == 'lambda' for n in dp.nodes()):
-            self.add('SH.4', None, 'depth traversal', dp.shortloc(), 'Node::depth does not descend by calling itself: not followed')
+            self._cached_depth(F, dp)
+            self.add('SH.4', None, 'depth traversal', dp.shortloc(), 'Node::depth does not descend by calling itself (it returns a stored value): whether that value is kept equal to 1 + the deepest child on every history is not followed')
         elif dp is not None:
             res = run_paths(F, dp, RouterDomain())
             okd = True; seen = 0; unfollowed = False; fold_ok = False
@@ -621,6 +630,30 @@ class RouterAnalysis:
             elif okd and (len(mx) == 1 or fold_ok): self.add('SH.4', True, inst, dp.shortloc(), key='SH.4|depth')
             elif not okd: self.add('SH.4', False, inst, dp.shortloc(), 'depth is not one more than the deepest child', key='SH.4|depth')
             else: self.add('SH.4', None, inst, dp.shortloc(), 'how the maximum is taken was not recognised')
+
+    def _cached_depth(self, F, dp):
+        """depth() returns a member: a cache.  One necessary condition is checked on shrink(): on every path on which it descended into a
+        child (whose own cached value may have changed) the cache of this node is recomputed afterwards, whether or not a direct child was erased"""
+        rets = [n for n in dp.nodes() if n.k == 'return']
+        cache = None
+        for r in rets:
+            for x in r.walk():
+                if x.k == 'member' and x.n('base') is not None and x.n('base').k == 'this' and x.field: cache = x.name
+        sh = F.fn(f'{NODE}::shrink')
+        if cache is None or sh is None: return
+        for regex, found in ((True, False), (False, True)):
+            dom = RouterDomain(dict(matches=True, leaf=False, regex=regex, found=found, children_empty=False))
+            for P, E in run_paths(F, sh, dom):
+                if P.end in ('throw', 'noreturn', 'loop'): continue
+                rec = [i for i, e in enumerate(E) if e.kind == 'call' and strip_targs(e.name) == f'{NODE}::shrink']
+                if not rec: continue
+                ws = [i for i, e in enumerate(E) if e.kind == 'write' and e.obj == cache and i > rec[-1]]
+                inst = f'shrink row (next is regex={regex}, child found={found}): after descending into a child the stored depth `{cache}` of this node is recomputed'
+                if ws: self.add('SH.4', True, inst, E[ws[0]].site, key='SH.4|cache-after-descent')
+                else:
+                    forks = [c.text()[:60] for c, val, how in P.decisions if how == 'fork']
+                    self.add('SH.4', False, inst, sh.shortloc(), f'shrink() descends into {len(rec)} child(ren) and returns without recomputing `{cache}`' + (f' (path conditions: {"; ".join(forks[-2:])})' if forks else '') +
+                             ': when a dead branch deeper down was removed the child became shallower, but this node and every ancestor keep the old value — depth() stays too large after shrink', key='SH.4|cache-after-descent')
 
     # ---- C11 ---------------------------------------------------------------------------------------------------------------------------------
     def concurrent_rules(self):
